@@ -59,7 +59,7 @@ func poolRunFields(p *Prog) []string {
 	st := n.Underlying().(*types.Struct)
 	run := map[string]bool{}
 	for _, fn := range p.Funcs {
-		if isConstructorName(fn.Name()) && fn.Signature.Recv() == nil {
+		if isConstructorName(cname(fn)) && fn.Signature.Recv() == nil {
 			continue
 		}
 		for _, pa := range p.Mod(fn).Paths() {
@@ -70,8 +70,8 @@ func poolRunFields(p *Prog) []string {
 	}
 	var out []string
 	for i := 0; i < st.NumFields(); i++ {
-		if run[st.Field(i).Name()] {
-			out = append(out, st.Field(i).Name())
+		if f := fieldName(n, i); run[f] {
+			out = append(out, f)
 		}
 	}
 	return out
@@ -124,11 +124,15 @@ func c17r1(p *Prog, r *Reporter) {
 			continue
 		}
 		for _, ins := range b.Instrs {
-			if c, ok := ins.(*ssa.Call); ok && c.Common().StaticCallee() != nil && c.Common().StaticCallee().Name() == "Alloc" {
+			if c, ok := ins.(*ssa.Call); ok && c.Common().StaticCallee() != nil && cname(c.Common().StaticCallee()) == "Alloc" {
 				allocInLoop = true
 			}
 			if st, ok := ins.(*ssa.Store); ok {
-				if ia, ok := st.Addr.(*ssa.IndexAddr); ok {
+				addr := st.Addr
+				if fa, ok := addr.(*ssa.FieldAddr); ok { // field-wise store into the entry
+					addr = fa.X
+				}
+				if ia, ok := addr.(*ssa.IndexAddr); ok {
 					if _, f, _, ok := loadedField(ia.X); ok && f == "entities" && idOf(ia.Index) != nil {
 						idxInLoop = true
 					}
@@ -393,7 +397,7 @@ func freshSlice(v ssa.Value, seen map[ssa.Value]bool) (bool, string) {
 		if b, ok := x.Call.Value.(*ssa.Builtin); ok && b.Name() == "append" {
 			return freshSlice(x.Call.Args[0], seen)
 		}
-		if sc := x.Call.StaticCallee(); sc != nil && sc.Pkg != nil && sc.Pkg.Pkg.Path() == "slices" && strings.HasPrefix(sc.Name(), "Clone") {
+		if sc := x.Call.StaticCallee(); sc != nil && sc.Pkg != nil && sc.Pkg.Pkg.Path() == "slices" && strings.HasPrefix(cname(sc), "Clone") {
 			return true, ""
 		}
 		return false, "result of " + calleeShort(x)
@@ -442,7 +446,7 @@ func c02r1(p *Prog, r *Reporter) {
 					}
 					name := p.FuncName(fn)
 					okc := typeName(recvType(fn)) == "entityPool" || fn == load
-					if isConstructorName(fn.Name()) {
+					if isConstructorName(cname(fn)) {
 						okc = true
 					}
 					if okc {
@@ -462,7 +466,7 @@ func c02r1(p *Prog, r *Reporter) {
 				// the function also allocates a row (calls a grow function) or writes the handle into a row
 				okc := false
 				for _, s2 := range callsIn(fn) {
-					if sc := s2.Common().StaticCallee(); sc != nil && (grow[sc] || sc.Name() == "SetEntity") {
+					if sc := s2.Common().StaticCallee(); sc != nil && (grow[sc] || cname(sc) == "SetEntity") {
 						okc = true
 					}
 				}
@@ -471,7 +475,7 @@ func c02r1(p *Prog, r *Reporter) {
 			if isCallTo(site, rec) {
 				okc := false
 				for _, s2 := range callsIn(fn) {
-					if sc := s2.Common().StaticCallee(); sc != nil && typeName(recvType(sc)) == "archetype" && (sc.Name() == "Remove" || sc.Name() == "Reset") {
+					if sc := s2.Common().StaticCallee(); sc != nil && typeName(recvType(sc)) == "archetype" && (cname(sc) == "Remove" || cname(sc) == "Reset") {
 						okc = true
 					}
 				}
@@ -640,7 +644,7 @@ func c02r4(p *Prog, r *Reporter) {
 				stored = false
 				if call, ok := site.(*ssa.Call); ok {
 					for _, s2 := range callsIn(fn) {
-						if sc := s2.Common().StaticCallee(); sc != nil && sc.Name() == "SetEntity" {
+						if sc := s2.Common().StaticCallee(); sc != nil && cname(sc) == "SetEntity" {
 							for _, a := range s2.Common().Args {
 								if a == ssa.Value(call) || originOf(a) != a && storedFrom(originOf(a), call) {
 									stored = true
@@ -679,7 +683,7 @@ func c02r5(p *Prog, r *Reporter) {
 			}
 		}
 		for _, site := range callsIn(fn) {
-			if sc := site.Common().StaticCallee(); sc != nil && sc.Name() == "ExtendTo" && typeName(recvType(sc)) == "bitSet" {
+			if sc := site.Common().StaticCallee(); sc != nil && cname(sc) == "ExtendTo" && typeName(recvType(sc)) == "bitSet" {
 				ext = true
 			}
 		}
@@ -814,11 +818,11 @@ func c17r6(p *Prog, r *Reporter) {
 						okc, why = true, "capacity = length + increment"
 					}
 				case *ssa.Call:
-					if sc := c.Common().StaticCallee(); sc != nil && capFns[sc.Name()] {
+					if sc := c.Common().StaticCallee(); sc != nil && capFns[cname(sc)] {
 						if structEq(stripConvs(c.Common().Args[0]), ln, 0) {
-							okc, why = true, "capacity = "+sc.Name()+"(length, ·), which rounds the same length up"
+							okc, why = true, "capacity = "+cname(sc)+"(length, ·), which rounds the same length up"
 						} else {
-							why = "the capacity is " + sc.Name() + "(" + exprString(c.Common().Args[0]) + ", ·) but the length is " + exprString(mk.Len) + ": the two are computed from different counts"
+							why = "the capacity is " + cname(sc) + "(" + exprString(c.Common().Args[0]) + ", ·) but the length is " + exprString(mk.Len) + ": the two are computed from different counts"
 						}
 					}
 				}
